@@ -94,6 +94,7 @@ type Frame struct {
 	unwinding bool
 	// loops already cut on this path (header -> true) used to detect back edges
 	freeVars map[*ssa.FreeVar]*Val
+	loopHeads map[*ssa.BasicBlock]*loopHead
 }
 
 func (f *Frame) clone() *Frame {
